@@ -86,8 +86,9 @@ package meta
 
 // The tombstone branch of put marks the target and its children; its share of the counter
 // diff must agree with what the index will hold afterwards (the recount's definitions):
-// the garbage counter counts garbage keys, so every key newly created here counts once,
-// whether or not the member's header is stored; the container's payload estimate loses the
+// the garbage counter counts the stored objects that carry a mark (the existing tests pin
+// this: a tombstone for an unknown target leaves it at 0), so every member whose header is
+// stored and that gets its mark now counts once; the container's payload estimate loses the
 // payload of exactly the members that are stored physical objects and become marked now
 // (not of already marked ones - that was taken off before).
 //@ ghost pred memberStatus() uint8
@@ -120,7 +121,8 @@ package meta
 //@   defines result == memberPayloadSize()
 //@ func handleObjectWithAssociation
 //@   property C02
-//@   loop 1 iteration [every_new_garbage_key_is_counted_once] inhumed == old(inhumed) + ite(memberStatus() == statusAvailable, 1, 0)
+//@   loop 1 invariant -1 <= rangeindex && rangeindex < len(children) && 0 <= inhumed && inhumed <= rangeindex + 1
+//@   loop 1 iteration [every_stored_member_marked_now_is_counted_once] inhumed == old(inhumed) + ite(memberHeaderStored() && memberStatus() == statusAvailable, 1, 0)
 //@   loop 1 iteration [payload_taken_off_only_for_members_marked_now] diff.Payload != old(diff.Payload) ==> memberHeaderStored() && memberStatus() == statusAvailable
 //@   loop 1 iteration [payload_of_every_stored_physical_member_marked_now_is_taken_off] memberHeaderStored() && memberStatus() == statusAvailable && memberPhysical() ==> diff.Payload == old(diff.Payload) - int64(memberPayloadSize())
 
